@@ -48,6 +48,7 @@ def showObs (tgt : String) : Obs → String
   | .nomatch => "P"
   | .oob => "O"
   | .orig => "G"
+  | .rejected => "R"
 
 def showM (w : When) (i : Nat) : String :=
   match w.ms[i]? with
